@@ -12,6 +12,10 @@
 // Input: a line-oriented text format on stdin (see harness/impl/strl_cxx.py),
 // output: one JSON object per case on stdout, each line prefixed by "@@ " so
 // that anything the library itself prints to stdout can be ignored.
+#include <signal.h>
+#include <sys/wait.h>
+#include <unistd.h>
+
 #include <algorithm>
 #include <cmath>
 #include <cstdio>
@@ -417,8 +421,46 @@ static void runCase(const CaseSpec& cs) {
   std::cout << "@@ " << o.str() << "\n";
 }
 
+// Every case runs in a forked child with a wall-clock budget, so that a crash
+// or a non-terminating loop inside the library costs one case, not the batch.
+static volatile pid_t g_child = 0;
+static void onAlarm(int) {
+  if (g_child > 0) kill(g_child, SIGKILL);
+}
+static int g_budget_s = 4;
+static void guardedRun(const CaseSpec& cs) {
+  if (g_budget_s <= 0) {  // no watchdog requested
+    runCase(cs);
+    return;
+  }
+  std::cout.flush();
+  pid_t pid = fork();
+  if (pid == 0) {
+    runCase(cs);
+    std::cout.flush();
+    _exit(0);
+  }
+  g_child = pid;
+  signal(SIGALRM, onAlarm);
+  alarm(g_budget_s);
+  int status = 0;
+  while (waitpid(pid, &status, 0) < 0) {
+  }
+  alarm(0);
+  g_child = 0;
+  if (WIFSIGNALED(status)) {
+    int sig = WTERMSIG(status);
+    std::string what = sig == SIGKILL ? "TIMEOUT: no reply within " + std::to_string(g_budget_s) + " s"
+                                      : "CRASH: signal " + std::to_string(sig);
+    std::cout << "@@ {\"case\":" << jstr(cs.id) << ",\"err\":" << jstr(what)
+              << ",\"results\":[]}\n";
+    std::cout.flush();
+  }
+}
+
 // ---------------------------------------------------------------- input
-int main() {
+int main(int argc, char** argv) {
+  if (argc > 1) g_budget_s = atoi(argv[1]);
   std::ios::sync_with_stdio(false);
   std::string line;
   CaseSpec cs;
@@ -482,7 +524,7 @@ int main() {
       while (in >> x) v.push_back(x);
       cs.assigns.push_back(v);
     } else if (w == "end") {
-      if (open) runCase(cs);
+      if (open) guardedRun(cs);
       open = false;
     }
   }
